@@ -462,6 +462,40 @@ pub fn generate(seed: u64, tier: &str, sink: &mut Sink) {
             sink.push(Case { tags: vec!["kind=stall".into(), format!("phase={}", name)], op: format!("nop {}", name), impl_line: "nop".into(), oracle: o });
         }
     }
+    // ---------------------------------------------------------------- (1e) a deadline that passes while the connection is set up
+    // T swept over the time a loopback connection takes (tens to hundreds of µs): somewhere in the sweep the
+    // deadline is still ahead when the connection attempt starts and already past when the connection's watchdog
+    // does — the call is bounded all the same (seed C13-seed5: a watchdog that finds the deadline past just exits;
+    // since fix F19 refuses to dial after the deadline, T = 1 µs no longer reaches that spot)
+    {
+        let mut hs = vec![];
+        for k in 0..48u64 {
+            let t_us = 10 + k * 12;
+            hs.push(std::thread::spawn(move || {
+                let (port, _acc) = server(vec![vec![Srv::ReadRequest, Srv::Hold(1700)]]);
+                let t0 = Instant::now();
+                let res = attohttpc::get(format!("http://127.0.0.1:{}/", port)).timeout(Duration::from_micros(t_us)).read_timeout(Duration::from_millis(1500)).connect_timeout(Duration::from_millis(1000)).send().and_then(|r| r.bytes());
+                (t_us, t0.elapsed().as_millis() as u64, match &res { Ok(b) => format!("ok:{}", b.len()), Err(e) => format!("err:{}", io_kind(e)) }, res.is_err())
+            }));
+        }
+        let mut worst: Option<(u64, u64, String)> = None;
+        let mut unreported: Option<(u64, String)> = None;
+        for h in hs {
+            let (t_us, el, desc, failed) = h.join().unwrap();
+            if el > margin + 150 && worst.as_ref().map_or(true, |w| el > w.1) {
+                worst = Some((t_us, el, desc.clone()));
+            }
+            if !failed {
+                unreported = Some((t_us, desc));
+            }
+        }
+        let o = match (worst, unreported) {
+            (Some((t_us, el, desc)), _) => Err(("late-deadline-during-connection-setup".to_string(), format!("T = {} µs against a peer that never answers: the call took {} ms ({})", t_us, el, desc))),
+            (None, Some((t_us, desc))) => Err(("stall-unreported-deadline-during-connection-setup".to_string(), format!("T = {} µs: {}", t_us, desc))),
+            _ => Ok(()),
+        };
+        sink.push(Case { tags: vec!["kind=stall".into(), "phase=deadline-during-connection-setup".into()], op: "nop deadline-sweep".into(), impl_line: "nop".into(), oracle: o });
+    }
     // ---------------------------------------------------------------- (1c) a prepared request sent again
     // T is the budget of ONE send(): a prepared request whose first send() ran into a stall (and failed with a
     // real timeout) is sent again — at once, and after more than T has gone by — to a peer that answers
